@@ -105,6 +105,8 @@ class C03(Harness):
             for i in range(3):
                 mw = [w for w in world.model.W if w['id'] == 'w%d' % i][0]
                 ops.append(['unwatch', i] if mw['active'] else ['watch', i])
+                if not mw['active']:
+                    ops.append(['watch_bad', i])
         elif s == 'oneshot':
             ops = [['set', 'a', 1], ['set', 'a', 2], ['update', [['a', 1], ['b', 1]]], ['trigger', ['a']]]
             for i in range(3):
